@@ -231,6 +231,24 @@ class RoleAnalysis:
                     if gs.ck in LOCK_CALLS:
                         getter_locks.add(default_lock_id(ctx.prog, rb, ctx.prog.bp(rb).arg_term(gs.bb, 0), gs.fn))
         self.getters_found = found
+        # a subscriber may end its own subscription from inside on_notify (a one-shot
+        # subscriber): today no lock is held around on_notify, so `unsubscribe()` is callable
+        # there.  Not from on_unsubscribe (it runs under the list lock, and nobody unsubscribes
+        # while being unsubscribed), not in C13's model (callbacks only read the state).
+        unsub_locks = set()
+        if not self.strict:
+            for ub in ctx.impls_of("Subscription", "unsubscribe"):
+                try:
+                    GU = Super(ctx.prog, ub, max_depth=10, inline=lambda s_, c_: A.metric_call(s_) is None, virtual_targets=self.targets)
+                except Exception:
+                    continue
+                for k_, n_ in GU.nodes.items():
+                    t_ = n_.body.blocks[n_.bb]["term"]
+                    if t_["k"] == "call":
+                        s_ = Site(n_.body, n_.bb, t_)
+                        if s_.ck in LOCK_CALLS:
+                            unsub_locks.add(ctx.lr(n_.body).lock_id_fn(ctx.prog, n_.body, ctx.prog.bp(n_.body).arg_term(n_.bb, 0), s_.fn))
+        self.unsub_locks = unsub_locks
         getter_locks.discard(state_lock)
         for role, roots in self.roles.items():
             for root in roots:
@@ -271,6 +289,11 @@ class RoleAnalysis:
                             self.acq[role].add(l)
                             for h in H:
                                 self.edges.append((h, l, s.where, role, "user code called from %s while holding %s may take %s (%s)" % (short(n.body.path), h, l, "get_state" if l == state_lock else ("dispatch_thunk" if l == pool_lock else "a public getter of the store"))))
+                        if ev == "NOTIFY":
+                            for l in sorted(unsub_locks):
+                                self.acq[role].add(l)
+                                for h in H:
+                                    self.edges.append((h, l, s.where, role, "on_notify called from %s while holding %s may take %s (a subscriber ending its own subscription: unsubscribe())" % (short(n.body.path), h, l)))
                         continue
                     # blocking operations
                     if A.is_send_wrapper_call(s):
